@@ -30,7 +30,7 @@ func versionGrid() []string {
 
 func checkC18(c *Ctx) error {
 	grid := versionGrid()
-	c.Rule = fmt.Sprintf("binaries linked with -X main.version=B for B from the grid majors {0,1,2,3,10} x minors {0,1,2,3,9,10,12,100} x patches {0,7} x {release, -rc.1, +b5} (%d versions; thorough: all, plain and v-prefixed; quick: seeded sample of 36 + fixed corner builds) plus non-semantic builds (unset, devel, dev-main, v, vX) x every declared version V of the same grid (quoted and unquoted YAML) plus absent V plus malformed V (v-prefixed, 4 components, leading zeros, letters, empty, int, float, bool, list, null). Oracle: the truth table of the statement (engine/ref.VersionGate); verdicts are read from the exit status and the failing step (gate rejections fail in Compile, unparsable versions fail in Read config). distinct = distinct (B, V) pair; non-trivial = B is a semantic version and V is declared", len(grid))
+	c.Rule = fmt.Sprintf("binaries linked with -X main.version=B for B from the grid majors {0,1,2,3,10} x minors {0,1,2,3,9,10,12,100} x patches {0,7} x {release, -rc.1, +b5} (%d versions; thorough: all, plain and v-prefixed; quick: seeded sample of 36 + fixed corner builds) plus non-semantic builds (unset, devel, dev-main, v, vX) x every declared version V of the same grid (quoted and unquoted YAML) plus absent V plus malformed V (v-prefixed, 4 components, leading zeros, letters, empty, int, float, bool, list, null). plus 2-3 input files declaring different versions (the last file that declares one decides). Oracle: the truth table of the statement (engine/ref.VersionGate); verdicts are read from the exit status and the failing step (gate rejections fail in Compile, unparsable versions fail in Read config). distinct = distinct (B, V) pair; non-trivial = B is a semantic version and V is declared", len(grid))
 	c.Assumptions = []string{"`-X main.version=B` is how release builds carry their version (Makefile, main.go)", "two-component shorthand versions (\"1.2\") are not judged: semver.org and the Go library disagree"}
 	w := c.W
 	var builds []string
@@ -136,6 +136,76 @@ func checkC18(c *Ctx) error {
 		c.Add("verdict_"+got, 1)
 		if ji == 11 || ji == 200 {
 			c.Sample(map[string]any{"build_version": B, "declared": strings.TrimSpace(d.yaml), "expected": want, "observed": got, "diagnostics": run.Rep.List})
+		}
+	})
+	// several input files: the version is a scalar attribute, so the last file that declares one decides (C09's rule), whatever
+	// the earlier files declared; files that declare none do not take part
+	type mjob struct {
+		b     int
+		decl  []int // index into grid, -1 = the file declares no version
+		where int   // which file holds the rest of the configuration
+	}
+	var mjobs []mjob
+	rm := rand.New(rand.NewSource(c.Seed*31 + 7))
+	for b := range builds {
+		if !ref.ParseSemVer(strings.TrimPrefix(builds[b], "v")).OK && b%3 != 0 {
+			continue
+		}
+		for k := 0; k < c.Pick(10, 40); k++ {
+			n := 2 + rm.Intn(2)
+			mj := mjob{b: b, where: rm.Intn(n)}
+			for f := 0; f < n; f++ {
+				switch rm.Intn(5) {
+				case 0:
+					mj.decl = append(mj.decl, -1)
+				case 1:
+					// near the build's own version: compatible and incompatible neighbours
+					mj.decl = append(mj.decl, rm.Intn(len(grid)))
+				default:
+					mj.decl = append(mj.decl, rm.Intn(len(grid)))
+				}
+			}
+			mjobs = append(mjobs, mj)
+		}
+	}
+	Par(len(mjobs), 16, func(ji int) {
+		mj := mjobs[ji]
+		B := builds[mj.b]
+		dir := w.TempDir("c18m")
+		files := map[string]string{"build-version.txt": B}
+		var last *string
+		args := []string{"build"}
+		for f, gi := range mj.decl {
+			y := ""
+			if gi >= 0 {
+				g := grid[gi]
+				y = fmt.Sprintf("version: %q\n", g)
+				last = &g
+			}
+			if f == mj.where {
+				y += body
+			}
+			name := fmt.Sprintf("f%d.yaml", f)
+			_ = work.WriteFile(filepath.Join(dir, name), []byte(y))
+			files["input/"+name] = y
+			args = append(args, "-i", name)
+		}
+		out := filepath.Join(dir, "out.go")
+		args = append(args, "-o", out)
+		run := cli.Do(w, bins[mj.b], nil, dir, out, args...)
+		want := ref.VersionGate(B, last)
+		got := "accept"
+		if run.Res.Exit != 0 {
+			got = "reject"
+			if t := run.Rep.FailingTop(); t != nil && t.Name == "Read config" {
+				got = "parse-error"
+			}
+		}
+		c.Eval(fmt.Sprintf("multi|%s|%v|%d", B, mj.decl, mj.where), last != nil)
+		c.Add("multi_file_version_cases", 1)
+		if got != want {
+			files["stdout.txt"] = run.Res.Stdout
+			c.Violate(fmt.Sprintf("multi-file-verdict:expected-%s-got-%s", want, got), fmt.Sprintf("build version %q, %d files declaring %v (grid indices, -1 = none; the last declared one decides): expected %s, observed %s\n%s", B, len(mj.decl), mj.decl, want, got, strings.Join(run.Rep.List, "\n")), files)
 		}
 	})
 	c.Set("declared_versions", len(decls))
